@@ -87,6 +87,14 @@ def impl_class_def(a: dict) -> dict:
     import numpy.typing as npt
 
     ns["npt"] = npt
+    import typing_extensions
+
+    # type aliases (PEP 695 `type X = ...` / TypeAliasType) of array classes as base types
+    ns.update({"ALIAS_ND": typing_extensions.TypeAliasType("ALIAS_ND", ns["np"].ndarray)})   # (an alias of npt.NDArray[...], itself an alias in numpy >= 2.5, is expanded one level only: not used)
+    if ns.get("torch") is not None:
+        ns["ALIAS_T"] = typing_extensions.TypeAliasType("ALIAS_T", ns["torch"].Tensor)
+    if ns.get("jax") is not None:
+        ns["ALIAS_J"] = typing_extensions.TypeAliasType("ALIAS_J", ns["jax"].Array)
     src = f"class K(pydantic.BaseModel):\n    model_config = pydantic.ConfigDict(arbitrary_types_allowed=True)\n    x: Annotated[{a['base']}, dltype.{a['cls']}('a b')]\n"
     try:
         exec(compile(src, "<c17>", "exec", dont_inherit=True), ns)  # noqa: S102
@@ -188,6 +196,8 @@ def run(tier: str, seed: int, rep: Report, model: Model) -> dict:
         ("TensorTypeBase", "npt.NDArray[np.int8]", I.V_arr("np", "i8", (2, 3)), "defined"), ("FloatTensor", "np.ndarray", I.V_arr("np", "f32", (2, 3)), "defined"),
         ("FloatTensor", "torch.Tensor", I.V_arr("torch", "f32", (2, 3)), "defined"), ("FloatTensor", "jax.Array", I.V_arr("jax", "f32", (2, 3)), "defined"),
         ("IntTensor", "npt.NDArray[np.int32 | np.int64]", I.V_arr("np", "i32", (2, 3)), "defined"), ("IntTensor", "npt.NDArray[np.int32 | np.float32]", None, "Dtype"),
+        ("FloatTensor", "ALIAS_ND", I.V_arr("np", "f32", (2, 3)), "defined"), ("FloatTensor", "ALIAS_T", I.V_arr("torch", "f32", (2, 3)), "defined"),
+        ("FloatTensor", "ALIAS_J", I.V_arr("jax", "f32", (2, 3)), "defined"),
     ):
         defs.append(({"cls": cls, "base": base, "value": val}, want))
     worker = ImplWorker("harness.props.c17")
